@@ -16,10 +16,10 @@ use crate::server::Senders;
 use crate::server::job::{Job, JobTaskState, SubmittedJobDescription};
 use crate::server::state::{State, StateRef};
 use crate::transfer::messages::{
-    JobDescription, JobSubmitDescription, JobTaskDescription, OpenJobResponse, SingleIdSelector,
-    SubmitRequest, SubmitResponse, TaskBuildDescription, TaskDescription, TaskExplainRequest,
-    TaskExplainResponse, TaskIdSelector, TaskKind, TaskKindProgram, TaskSelector,
-    TaskStatusSelector, TaskWithDependencies, ToClientMessage,
+    JobDescription, JobSubmitDescription, JobTaskDescription, MAX_TASKS_PER_SUBMIT,
+    OpenJobResponse, SingleIdSelector, SubmitRequest, SubmitResponse, TaskBuildDescription,
+    TaskDescription, TaskExplainRequest, TaskExplainResponse, TaskIdSelector, TaskKind,
+    TaskKindProgram, TaskSelector, TaskStatusSelector, TaskWithDependencies, ToClientMessage,
 };
 use tako::control::ServerRef;
 use tako::program::ProgramDefinition;
@@ -169,6 +169,16 @@ pub(crate) fn handle_submit(
     mut message: SubmitRequest,
 ) -> ToClientMessage {
     log_submit_request(&message);
+
+    // This has to be checked before anything else, the following checks (and of course
+    // the creation of the tasks) need time and memory proportional to the number of tasks.
+    let n_tasks = message.submit_desc.task_desc.task_count();
+    if n_tasks > MAX_TASKS_PER_SUBMIT {
+        return ToClientMessage::Error(format!(
+            "Invalid submit: too many tasks ({n_tasks}), \
+            at most {MAX_TASKS_PER_SUBMIT} tasks can be created by one submit"
+        ));
+    }
 
     let mut state = state_ref.get_mut();
     let job = message.job_id.and_then(|job_id| state.get_job(job_id));
